@@ -1,5 +1,8 @@
 //! Which scenarios / run classes decide which property, with budgets per tier.
 use crate::driver::ClassSpec;
+use crate::sc_entropy::ENTROPY;
+use crate::sc_pok::POK;
+use crate::sc_sign::SIGN;
 use crate::sc_thresh::THRESH;
 
 pub struct PropSpec {
@@ -47,6 +50,62 @@ pub fn spec(id: &str) -> Option<PropSpec> {
              Class `subsets` enumerates every (group, scheme in {Basic, PoP}, 2<=t<=n<=7) with every subset of every size.",
             vec!["cur-blst"],
         )),
+        "C01" => Some(base(
+            vec![cs(&SIGN, "grid", 648, 648 * 4, true), cs(&SIGN, "retry-restart", 600, 12000, false)],
+            "cases = (group, scheme, key class {1, 2, r-2, r-1, hash-derived, seeded random}, message-length class, key codec on disk, wire codec, fault-script length); \
+             class `grid` enumerates every key class x length class (0,1,31,32,33,127,128,129,255,256,257,4 KiB,16382,16383,16384,64 KiB,40,100) x scheme x group; \
+             non-trivial = a run with at least one transport/crash fault (retries, duplicates, restarts with key reload)",
+            vec!["cur-blst"],
+        )),
+        "C02" => Some(base(
+            vec![cs(&SIGN, "tamper", 2200, 40000, false), cs(&SIGN, "bitflip-all", 6, 54, false)],
+            "cases = (group, scheme, perturbation kind of the Byzantine relay {sig+kG, -sig, k*sig, signature of another message/key, message bit-flip/truncate/extend/empty/prefix, other key, pk+G, -pk, relabel, valid related tuples, in-flight bit flips}, reference decision); \
+             `bitflip-all` flips every single bit of the pk, signature and message encodings of one honest tuple per run; every perturbed tuple is non-trivial",
+            vec!["cur-blst", "ref (draft tags)"],
+        )),
+        "C03" => Some(base(
+            vec![cs(&SIGN, "interop", 1500, 30000, false)],
+            "cases = (group, key class, seed length, message-length class, scheme, aggregate size, repeated-message flag); the reference implementation is a peer: byte equality of KeyGen / SkToPk / CoreSign x3 / PopProve / Aggregate and mutual acceptance; \
+             no schedule or fault influences this property (stated in DESIGN.md): non-trivial counts cases with edge keys, seeds shorter than 32 bytes or repeated aggregate messages",
+            vec!["cur-blst", "ref (draft tags)"],
+        )),
+        "C05" => Some(base(
+            vec![cs(&SIGN, "relabel", 400, 6000, false), cs(&SIGN, "tags", 1, 1, true)],
+            "cases = (group, ordered pair of distinct schemes, artefact type {Signature, MultiSignature, AggregateSignature, SignatureShare, SignCryptCiphertext, TimeCryptCiphertext, ProofOfKnowledge, ProofCommitment, ProofOfKnowledgeTimestamp}) plus PoP-vs-signature confusions; \
+             class `tags` enumerates the ten tag constants the library exposes (pairwise distinct; eight equal to the draft strings); every relabelled case is non-trivial",
+            vec!["cur-blst", "ref (draft strings, tag comparison only)"],
+        )),
+        "C09" => Some(base(
+            vec![cs(&SIGN, "registry", 500, 10000, false)],
+            "cases = (group, key class of registrant, untouched/corrupted in flight, decision) + all ordered pairs of distinct registrants (cross-registration) + perturbed proofs {-pi, pi+G, k*pi, identity, off-subgroup, bit flips}; non-trivial = any case other than an untouched own registration",
+            vec!["cur-blst"],
+        )),
+        "C10" => Some(PropSpec {
+            needs_clock: true,
+            ..base(
+                vec![
+                    cs(&POK, "interactive", 120, 3000, false),
+                    cs(&POK, "interactive-tamper", 400, 8000, false),
+                    cs(&POK, "ts-clock", 1200, 40000, false),
+                    cs(&POK, "ts-future", 200, 4000, false),
+                    cs(&POK, "ts-tamper", 700, 16000, false),
+                    cs(&POK, "ts-replay", 300, 8000, false),
+                ],
+                "cases = (variant, group, scheme, timeout class, elapsed-time class relative to the timeout at ns granularity {negative, inside, don't-care millisecond, after}, \
+                 relay perturbation kind, delivery number); non-trivial = any tampered component, or an elapsed time outside the plain accept region; distinct by hash of the tuple",
+                vec!["cur-blst"],
+            )
+        }),
+        "C20" => Some(PropSpec {
+            needs_entropy: true,
+            needs_clock: true,
+            ..base(
+                vec![cs(&ENTROPY, "history", 96, 96, false), cs(&ENTROPY, "processes", 24, 48, false)],
+                "cases = (randomized entry point, group, mode in {one call sequence, 8 caller threads, 4 process incarnations, two device seeds, two child processes seam on/off}); \
+                 N identical-argument calls per case (quick 256, thorough 4096) at a frozen simulated clock; every exposed ephemeral (u, masks, c1, recomputed r1, commitment, secret, key, challenge, share values) must be pairwise distinct; all cases are non-trivial",
+                vec!["cur-blst"],
+            )
+        }),
         _ => None,
     }
 }
